@@ -80,6 +80,10 @@ func init() {
 								s2.FilterOut = fo
 								emit(s2)
 								if fo == 2 {
+									// an output of a concrete type implementing error is an ordinary output
+									s5 := s2
+									s5.Target.Out = []Label{{"", TE, ""}}
+									emit(s5)
 									s3 := s2
 									s3.Target.Out = nil
 									emit(s3)
@@ -110,6 +114,71 @@ func init() {
 				emit(s2)
 			}
 		})
+	})
+
+	// ---- failsforms: failing converters with several outputs in every result form
+	reg("failsforms", "a converter T1 -> (T0, T3) with an error result, failing or not, in positional / struct / pointer-struct / BuildFunc form, alone or behind a second converter T2 -> T1; target (T0) or (T0, T3)", func(size int, emit func(Scenario)) {
+		u := func(t int) Label { return Label{"", t, ""} }
+		for _, fails := range []bool{true, false} {
+			for _, form := range []int{0, 1, 2, 3} {
+				c0 := FuncSpec{ID: "c0", In: []Label{u(1)}, Out: []Label{u(0), u(3)}, HasErr: true, Fails: fails, InForm: FormPositional}
+				switch form {
+				case 0:
+					c0.OutForm = FormPositional
+				case 1:
+					c0.OutForm = FormStruct
+				case 2:
+					c0.OutForm = FormPtrStruct
+				case 3:
+					c0.Built = true
+				}
+				for _, outs := range [][]Label{{u(0), u(3)}, {{"a", 0, ""}, {"b", 0, ""}}, {u(0)}, {u(0), u(3), {"a", 2, ""}}} {
+					if form == 0 && !positionalOK(outs) {
+						continue
+					}
+					c := c0
+					c.Out = outs
+					for _, tin := range [][]Label{{outs[0]}, outs[:len(outs):len(outs)]} {
+						for _, chain := range []bool{false, true} {
+							s := Scenario{Target: FuncSpec{ID: "tgt", In: tin, InForm: FormStruct, Out: []Label{u(4)}, OutForm: FormPositional}, Inputs: mkInputs([]Label{u(1)}), Convs: []FuncSpec{c}}
+							if chain {
+								s.Inputs = mkInputs([]Label{u(2)})
+								s.Convs = append(s.Convs, FuncSpec{ID: "c1", In: []Label{u(2)}, Out: []Label{u(1)}, InForm: FormPositional, OutForm: FormPositional})
+							}
+							emit(s)
+						}
+					}
+				}
+			}
+		}
+	})
+
+	// ---- subchains: multi-input converters whose type-only inputs carry subtypes
+	reg("subchains", "one converter with two type-only inputs over {T1, T1/x, T1/y} x {T2, T2/x} producing T0 (type-only or named); target of 1-2 parameters over {T0, a:T0, T1/x, T1/y, T2/x}; up to 3 type-only inputs over the subtyped labels — several subtypes of one Go type in one call, converters of which one input is derivable and one is not", func(size int, emit func(Scenario)) {
+		p1 := []Label{{"", 1, ""}, {"", 1, "x"}, {"", 1, "y"}}
+		p2 := []Label{{"", 2, ""}, {"", 2, "x"}}
+		tls := []Label{{"", 0, ""}, {"a", 0, ""}, {"", 1, "x"}, {"", 1, "y"}, {"", 2, "x"}}
+		ins := []Label{{"", 1, ""}, {"", 1, "x"}, {"", 1, "y"}, {"", 2, ""}, {"", 2, "x"}}
+		for _, a := range p1 {
+			for _, b := range p2 {
+				for _, out := range []Label{{"", 0, ""}, {"a", 0, ""}} {
+					conv := FuncSpec{ID: "c0", In: []Label{a, b}, Out: []Label{out}, InForm: FormStruct, OutForm: FormStruct}
+					for _, tp := range subsetsUpTo(len(tls), 2) {
+						if len(tp) == 0 || !wellFormed(pick(tls, tp)) {
+							continue
+						}
+						for _, in := range subsetsUpTo(len(ins), 3) {
+							if !inputsDistinct(pick(ins, in)) {
+								continue
+							}
+							t := mkTarget(pick(tls, tp))
+							t.InForm = FormStruct
+							emit(Scenario{Target: t, Inputs: mkInputs(pick(ins, in)), Convs: []FuncSpec{conv}})
+						}
+					}
+				}
+			}
+		}
 	})
 
 	// ---- multiout: one converter with two outputs of one type under different labels
@@ -187,6 +256,22 @@ func init() {
 			{ID: "c0", In: []Label{{"", TP1, ""}}, Out: []Label{{"", 0, ""}}, InForm: FormPositional, OutForm: FormPositional},
 		}
 		filters := [][]int{nil, {TP0}, {TP1}, {0}, {TP0, TP1}, {0, TP0, TP1}}
+		// a converter reached through a named input that also takes an interface-typed
+		// type-only field (outside C08's single-input premise: judged by C06 only)
+		for _, tin := range [][]Label{{{"", 0, ""}}, {{"", 0, ""}, {"", TP0, ""}}} {
+			for _, inp := range [][]Label{nil, {{"a", 1, ""}}, {{"", 3, ""}}} {
+				for _, f := range [][]int{nil, {1, TI}, {TI}, {1, 3}, {TI, TP0}} {
+					s := Scenario{Mode: "redefine",
+						Target: FuncSpec{ID: "tgt", In: tin, InForm: FormPositional, Out: []Label{{"", 2, ""}}, OutForm: FormPositional},
+						Inputs: mkInputs(inp),
+						Convs:  []FuncSpec{{ID: "c0", In: []Label{{"a", 1, ""}, {"", TI, ""}}, Out: []Label{{"", 0, ""}}, InForm: FormStruct, OutForm: FormPositional}}}
+					if f != nil {
+						s.HasFilter, s.FilterIn = true, f
+					}
+					emit(s)
+				}
+			}
+		}
 		for _, tp := range subsetsUpTo(len(labels), 2) {
 			if len(tp) == 0 || !wellFormed(pick(labels, tp)) {
 				continue
